@@ -1,62 +1,120 @@
 from excel2pycl.src.context import Context
 from excel2pycl.src.excel import Excel
-from excel2pycl.src.tokens import ExpressionToken, AmpersandToken, DateControlConstructionToken, \
-    TodayControlConstructionToken, EqOperatorToken, NotEqOperatorToken, GtOperatorToken, GtOrEqualOperatorToken, \
-    LtOperatorToken, LtOrEqualOperatorToken, PercentToken, OneLeftOperandExpressionToken
+from excel2pycl.src.exceptions import E2PyclParserException
+from excel2pycl.src.tokens import ExpressionToken, AmpersandToken, EqOperatorToken, NotEqOperatorToken, GtOperatorToken, \
+    GtOrEqualOperatorToken, LtOperatorToken, LtOrEqualOperatorToken, PercentToken, OneLeftOperandExpressionToken, \
+    OperandToken, OperatorToken, OneOperandArithmeticOperatorToken, PercentOperatorToken, BracketStartToken, \
+    BracketFinishToken, PlusOperatorToken, MinusOperatorToken, MultiplicationOperatorToken, DivOperatorToken
 from excel2pycl.src.translators.abstract_translator import AbstractTranslator
 
 
 class ExpressionTokenTranslator(AbstractTranslator):
-    _DATE_TOKENS = [DateControlConstructionToken, TodayControlConstructionToken]
+    """
+    The grammar is right-recursive (operand operator rest), so the shape of the token tree says nothing about how
+    operators group. The translator therefore flattens an expression into its sequence of operands and operators
+    (a bracketed sub-expression is one operand) and groups that sequence by Excel's precedence:
+    % (postfix), unary + -, * /, + -, &, comparisons; operators of one level associate to the left.
+    Every emitted sub-expression is parenthesised, so Python's own precedence never decides anything.
+    """
+    _COMPARE_TOKENS = (EqOperatorToken, NotEqOperatorToken, GtOperatorToken, GtOrEqualOperatorToken,
+                       LtOperatorToken, LtOrEqualOperatorToken)
 
     @classmethod
     def translate(cls, token: ExpressionToken | OneLeftOperandExpressionToken, excel: Excel, context: Context) -> str:
+        items = cls._flatten(token, excel, context)
+        code, position = cls._comparison(items, 0)
+        if position != len(items):
+            raise E2PyclParserException('Unexpected token in an expression')
+        return code[0]
+
+    # --- the flat sequence: ('operand', code) | ('percent',) | ('operator', regexp token of the operator)
+
+    @classmethod
+    def _flatten(cls, token, excel: Excel, context: Context) -> list:
         from excel2pycl.src.translators.operand_token_translator import OperandTokenTranslator
+
+        items, values, index = [], token.value, 0
+        while index < len(values):
+            value = values[index]
+            if isinstance(value, OperandToken):
+                items.append(('operand', OperandTokenTranslator.translate(value, excel, context)))
+            elif isinstance(value, PercentOperatorToken):
+                items.append(('percent',))
+            elif isinstance(value, (OperatorToken, OneOperandArithmeticOperatorToken)):
+                items.append(('operator', value.operator))
+            elif isinstance(value, BracketStartToken):
+                # ( expression ) is one operand, grouped on its own
+                items.append(('operand', f'({cls.translate(values[index + 1], excel, context)})'))
+                index += 2
+                if not isinstance(values[index], BracketFinishToken):
+                    raise E2PyclParserException('A bracket is not closed')
+            elif isinstance(value, (ExpressionToken, OneLeftOperandExpressionToken)):
+                items += cls._flatten(value, excel, context)
+            else:
+                raise E2PyclParserException('Unexpected token in an expression')
+            index += 1
+        return items
+
+    @staticmethod
+    def _operator_at(items: list, position: int, classes: tuple):
+        if position < len(items) and items[position][0] == 'operator' and isinstance(items[position][1], classes):
+            return items[position][1]
+        return None
+
+    # --- grouping, loosest level first; every level returns ((code, is_percent), next position)
+
+    @classmethod
+    def _comparison(cls, items: list, position: int):
         from excel2pycl.src.translators.operator_sub_token_translator import OperatorSubTokenTranslator
 
-        operator, left_operand, left_brackets, right_brackets, right_operand = token.operator, token.left_operand, \
-            None, None, None
+        left, position = cls._concatenation(items, position)
+        while (operator := cls._operator_at(items, position, cls._COMPARE_TOKENS)) is not None:
+            right, position = cls._concatenation(items, position + 1)
+            symbol = OperatorSubTokenTranslator.translate(operator, None, None)
+            left = (f'self._compare("{symbol}", {left[0]}, {right[0]})', False)
+        return left, position
 
-        if isinstance(token, ExpressionToken):
-            left_brackets, right_brackets, right_operand = token.left_brackets, token.right_brackets, \
-                  token.right_operand
+    @classmethod
+    def _concatenation(cls, items: list, position: int):
+        left, position = cls._additive(items, position)
+        while cls._operator_at(items, position, (AmpersandToken,)) is not None:
+            right, position = cls._additive(items, position + 1)
+            left = (f'(str({left[0]})+str({right[0]}))', False)
+        return left, position
 
-        if left_operand:
-            token_translator = ExpressionTokenTranslator if \
-                left_operand.__class__ in [ExpressionToken, OneLeftOperandExpressionToken] \
-                else OperandTokenTranslator
+    @classmethod
+    def _additive(cls, items: list, position: int):
+        return cls._binary(items, position, (PlusOperatorToken, MinusOperatorToken), cls._multiplicative)
 
-            left_operand = token_translator.translate(left_operand, excel, context)
-            left_operand = f'({left_operand})' if left_brackets else left_operand
+    @classmethod
+    def _multiplicative(cls, items: list, position: int):
+        return cls._binary(items, position, (MultiplicationOperatorToken, DivOperatorToken), cls._unary)
 
-        if right_operand:
-            token_translator = ExpressionTokenTranslator \
-                if right_operand.__class__ is ExpressionToken else OperandTokenTranslator
+    @classmethod
+    def _binary(cls, items: list, position: int, classes: tuple, operand_level):
+        left, position = operand_level(items, position)
+        while (operator := cls._operator_at(items, position, classes)) is not None:
+            right, position = operand_level(items, position + 1)
+            code = f'({left[0]}{operator.value[0]}{right[0]})'
+            if left[1]:
+                # as before: arithmetic whose left operand is a percent term is rounded to 15 significant digits (7%*12 is 0.84)
+                code = f'self._normalize_float_number({code})'
+            left = (code, False)
+        return left, position
 
-            right_operand = token_translator.translate(right_operand, excel, context)
-            right_operand = f'({right_operand})' if right_brackets else right_operand
+    @classmethod
+    def _unary(cls, items: list, position: int):
+        operator = cls._operator_at(items, position, (PlusOperatorToken, MinusOperatorToken))
+        if operator is not None:
+            operand, position = cls._unary(items, position + 1)
+            return (f'({operator.value[0]}{operand[0]})', False), position
+        return cls._postfix(items, position)
 
-        if operator:
-            if operator.__class__ is AmpersandToken:
-                left_operand = f'str({left_operand})'
-                right_operand = f'str({right_operand})'
-
-            # попытка заставить сравнение работать так, как надо
-            compare_tokens = (EqOperatorToken, NotEqOperatorToken, GtOperatorToken, GtOrEqualOperatorToken,
-                              LtOperatorToken, LtOrEqualOperatorToken)
-
-            if isinstance(operator, compare_tokens) and left_operand and right_operand:
-                operator = OperatorSubTokenTranslator.translate(operator, excel, context)
-                return f'self._compare("{operator}", {left_operand}, {right_operand})'
-
-            if operator.__class__ is PercentToken:
-                left_operand = f'self._normalize_float_number({left_operand} / 100)'
-                operator = None
-            else:
-                operator = OperatorSubTokenTranslator.translate(operator, excel, context)
-
-            if isinstance(token.left_operand, OneLeftOperandExpressionToken) and \
-                    isinstance(token.left_operand.operator, PercentToken):
-                return f"self._normalize_float_number({left_operand or ''}{operator or ''}{right_operand or ''})"
-
-        return f"{left_operand or ''}{operator or ''}{right_operand or ''}"
+    @classmethod
+    def _postfix(cls, items: list, position: int):
+        if position >= len(items) or items[position][0] != 'operand':
+            raise E2PyclParserException('An operand is expected in an expression')
+        operand, position = (items[position][1], False), position + 1
+        while position < len(items) and items[position][0] == 'percent':
+            operand, position = (f'self._normalize_float_number({operand[0]} / 100)', True), position + 1
+        return operand, position
